@@ -1,7 +1,7 @@
 (** C08 - Channel operations never block or panic, even nested inside each other. *)
 From Coq Require Import List Arith NArith ZArith Bool.
 From SH Require Import base.Pool gen.Extracted_channel channel.Defs channel.Word channel.Model channel.Skeleton
-  channel.Inv channel.Progress channel.ModelRA channel.InvRA.
+  channel.Inv channel.Progress channel.ModelRA channel.InvRA channel.ProgressRA.
 Import ListNotations.
 Local Open Scope N_scope.
 
@@ -29,6 +29,17 @@ Theorem C08_bounded_solo : forall ls s fs es j f cs k,
   exists f', nth_error fs' j = Some f' /\ fpc f' = PDone /\
              (forall i, i <> j -> nth_error fs' i = nth_error fs i).
 Proof. exact bounded_solo. Qed.
+
+(** The same under the view semantics: 8 + 2k steps (one more for the Slot load; a load may
+    have read a stale message, costing one failed CAS per queue operation), where k bounds the
+    steps whose choice is not 0 - a CAS made to fail (spuriously or on a stale message) or a
+    load reading ahead of its view. *)
+Theorem C08_bounded_solo_ra : forall ls j f cs k,
+  let w := rrun rinit_world ls in
+  nth_error (snd w) j = Some f -> (nonzeros cs <= k)%nat -> (8 + 2 * k <= length cs)%nat ->
+  exists f', nth_error (snd (rrun w (rsolo j cs))) j = Some f' /\ rpcf f' = RDone /\
+             (forall i, i <> j -> nth_error (snd (rrun w (rsolo j cs))) i = nth_error (snd w) i).
+Proof. exact ra_bounded_solo. Qed.
 
 (** No step waits for another activity: every step that is not a spurious CAS failure strictly
     decreases the number of steps the frame still needs on its own. *)
